@@ -1,0 +1,109 @@
+//go:build verif
+
+package har
+
+// Contracts for govc (contract-based deductive verification, see /verif/DESIGN.md).
+// This file contains comments only and is compiled only with the build tag `verif`.
+
+// ---------------------------------------------------------------------------------------------
+// C17: the HAR log. Membership is what the index says (an entry is in the log iff entries[e.ID] == e); arr(e) is a
+// ghost arrival stamp taken from a ghost clock under the lock. The ring invariant: tail is the newest member,
+// tail.next the oldest, and next leads from every other member to its immediate successor in arrival order.
+
+//@ guarded_by Logger.entries mu C17
+//@ guarded_by Logger.tail mu C17
+//@ ghost field Entry.arr int
+//@ ghost field Entry.gpos int
+//@ ghost var harClock int
+
+//@ pred inLog(l *Logger, e *Entry) = e != nil && has(l.entries, e.ID) && l.entries[e.ID] == e
+//@ pred harInv(l *Logger) = l != nil && l.entries != nil &&
+//@    (forall id string :: has(l.entries, id) ==> l.entries[id] != nil && l.entries[id].ID == id && allocated(l.entries[id])) &&
+//@    ((l.tail == nil) == (forall id string :: !has(l.entries, id))) &&
+//@    (forall a *Entry, b *Entry :: inLog(l, a) && inLog(l, b) && a != b ==> a.arr != b.arr) &&
+//@    (forall e *Entry :: inLog(l, e) ==> e.arr < harClock) &&
+//@    (l.tail != nil ==> inLog(l, l.tail) && inLog(l, l.tail.next) &&
+//@         (forall e *Entry :: inLog(l, e) ==> e.arr <= l.tail.arr && l.tail.next.arr <= e.arr)) &&
+//@    (forall e *Entry :: inLog(l, e) && e != l.tail ==> inLog(l, e.next) && e.arr < e.next.arr &&
+//@         (forall m *Entry :: inLog(l, m) ==> m.arr <= e.arr || e.next.arr <= m.arr))
+
+//@ func NewRequest
+//@   trusted
+//@   modifies http.Request.Body
+//@   ensures (result1 == nil) == (result0 != nil)
+//@ func NewResponse
+//@   trusted
+//@   modifies http.Response.Body
+//@   ensures (result1 == nil) == (result0 != nil)
+
+//@ func (*Logger).RecordRequest
+//@   serves C17
+//@   requires harInv(l) && !l.mu.held && l.postDataLogging != nil && req != nil
+//@   modifies l.entries[*], l.tail, Entry.next, Entry.arr, harClock, l.mu.held, http.Request.Body
+//@   noframe
+//@   ensures[invariant-kept] harInv(l) && !l.mu.held
+//@   ensures[duplicate-id-changes-nothing] old(has(l.entries, id)) ==> result != nil &&
+//@        (forall k string :: has(l.entries, k) == old(has(l.entries, k)) && l.entries[k] == old(l.entries[k])) && l.tail == old(l.tail) &&
+//@        (forall e *Entry :: old(inLog(l, e)) ==> e.next == old(e.next) && e.arr == old(e.arr))
+//@   ensures[new-entry-is-the-newest-member] !old(has(l.entries, id)) && result == nil ==> has(l.entries, id) && l.tail == l.entries[id] && !wasAllocated(l.tail) &&
+//@        (forall k string :: k != id ==> has(l.entries, k) == old(has(l.entries, k)) && l.entries[k] == old(l.entries[k])) &&
+//@        (forall e *Entry :: old(inLog(l, e)) ==> e.arr == old(e.arr) && e.arr < l.tail.arr)
+//@   at call 0 of Lock after set entry.arr = harClock
+//@   at call 0 of Lock after set harClock = harClock + 1
+
+//@ extern func (*Logger).postDataLogging
+//@ extern func (*Logger).bodyLogging
+
+//@ func (*Logger).RecordResponse
+//@   serves C17
+//@   requires harInv(l) && !l.mu.held && l.bodyLogging != nil && res != nil
+//@   modifies Entry.Response, Entry.Time, l.mu.held, http.Response.Body
+//@   noframe
+//@   ensures[invariant-kept] harInv(l) && !l.mu.held
+//@   ensures[membership-and-order-untouched] (forall k string :: has(l.entries, k) == old(has(l.entries, k)) && l.entries[k] == old(l.entries[k])) && l.tail == old(l.tail) &&
+//@        (forall e *Entry :: e.next == old(e.next) && e.arr == old(e.arr))
+//@   ensures[only-the-addressed-entry-gets-the-response] forall e *Entry :: !(has(l.entries, id) && e == l.entries[id]) ==> e.Response == old(e.Response) && e.Time == old(e.Time)
+//@   ensures[known-id-gets-a-response] result == nil && has(l.entries, id) ==> l.entries[id].Response != nil
+
+//@ func (*Logger).Reset
+//@   serves C17
+//@   requires l != nil && !l.mu.held
+//@   modifies l.entries, l.tail, l.mu.held
+//@   ensures[log-is-empty] harInv(l) && !l.mu.held && l.tail == nil && forall id string :: !has(l.entries, id)
+
+//@ func (*Logger).makeHAR
+//@   serves C17
+//@   requires l != nil
+//@   modifies nothing
+//@   ensures result != nil && result.Log != nil && result.Log.Entries == es
+
+// Export: every member exactly once, in arrival order; the log is unchanged.
+//@ func (*Logger).Export
+//@   serves C17
+//@   requires harInv(l) && !l.mu.held
+//@   modifies l.mu.held, Entry.gpos
+//@   noframe
+//@   ensures[invariant-kept] harInv(l) && !l.mu.held
+//@   ensures[in-arrival-order-without-duplicates] result != nil && result.Log != nil &&
+//@        forall i int :: 0 <= i && i + 1 < len(result.Log.Entries) ==> result.Log.Entries[i].arr < result.Log.Entries[i+1].arr
+//@   ensures[only-members] forall i int :: 0 <= i && i < len(result.Log.Entries) ==> inLog(l, result.Log.Entries[i])
+//@   ensures[every-member-exported] forall e *Entry :: inLog(l, e) ==> 0 <= e.gpos && e.gpos < len(result.Log.Entries) && result.Log.Entries[e.gpos] == e
+//@   loop 0 invariant l.mu.held && harInv(l) && (curr == nil ==> l.tail == nil && len(es) == 0)
+//@   loop 0 invariant curr != nil ==> inLog(l, curr)
+//@   loop 0 invariant forall i int :: 0 <= i && i < len(es) ==> inLog(l, es[i])
+//@   loop 0 invariant forall i int :: 0 <= i && i + 1 < len(es) ==> es[i].arr < es[i+1].arr
+//@   loop 0 invariant len(es) == 0 ==> curr == l.tail
+//@   loop 0 invariant len(es) > 0 ==> es[len(es)-1] == curr && curr != l.tail
+//@   loop 0 invariant forall e *Entry :: inLog(l, e) && len(es) > 0 && e.arr <= curr.arr ==> 0 <= e.gpos && e.gpos < len(es) && es[e.gpos] == e
+//@   loop 0 invariant forall i int :: 0 <= i && i < len(es) ==> es[i].arr <= curr.arr
+//@   loop 0 invariant arr(es) == nil || !wasAllocated(es)
+//@   at call 0 of append before assert[older-than-the-entry-being-appended] forall i int :: 0 <= i && i < len(es) ==> es[i].arr < curr.arr
+//@   at call 0 of append after assert[append-keeps-the-prefix] len(result) == len(arg0) + 1 && result[len(arg0)] == curr && forall i int :: 0 <= i && i < len(arg0) ==> result[i] == arg0[i]
+//@   at call 0 of append after assert[sorted-after-append] forall i int :: 0 <= i && i + 1 < len(result) ==> result[i].arr < result[i+1].arr
+//@   at call 0 of append before assert[next-is-a-member] inLog(l, curr)
+//@   at call 0 of append before assert[collected-are-members] forall i int :: 0 <= i && i < len(es) ==> inLog(l, es[i])
+//@   at call 0 of append after assert[members-after-append] forall i int :: 0 <= i && i < len(result) ==> inLog(l, result[i])
+//@   at call 0 of append after assert[bounded-after-append] forall i int :: 0 <= i && i < len(result) ==> result[i].arr <= curr.arr
+//@   at call 0 of append after set curr.gpos = len(arg0)
+//@   at call 0 of append after assert[covered-after-append] forall e *Entry :: inLog(l, e) && e.arr <= curr.arr ==> 0 <= e.gpos && e.gpos < len(result) && result[e.gpos] == e
+//@   at call 0 of makeHAR after assert[exported-list-is-the-collected-list] result.Log.Entries == es
